@@ -17,7 +17,8 @@ def s_C01(tier, rng):
             ("random_histories", gen.random_histories(tier, rng, Q(tier, 1500, 12000))),
             ("statics_routes", gen.statics_routes(tier, rng, Q(tier, 300, 3000))),
             ("views", gen.views(tier, rng, Q(tier, 300, 3000))),
-            ("clear_cycles", gen.clear_cycles(tier, rng, Q(tier, 150, 1500)))]
+            ("clear_cycles", gen.clear_cycles(tier, rng, Q(tier, 150, 1500))),
+            ("serde_roundtrip", gen.serde_roundtrip(tier, rng, Q(tier, 400, 4000)))]
 
 def s_C02(tier, rng):
     return [("corpus", gen.corpus()),
@@ -92,7 +93,7 @@ def s_C15(tier, rng):
 
 def s_C16(tier, rng):
     return [("corpus", gen.corpus()),
-            ("statics_routes", gen.statics_routes(tier, rng, Q(tier, 2500, 40000))),
+            ("statics_routes", gen.statics_routes(tier, rng, Q(tier, 1500, 40000))),
             ("views", gen.views(tier, rng, Q(tier, 500, 5000))),
             ("random_histories", gen.random_histories(tier, rng, Q(tier, 600, 8000)))]
 
@@ -101,7 +102,7 @@ def s_C17(tier, rng):
     import random as _r
     def routed():
         n = 0
-        for k in range(Q(tier, 300, 3000)):
+        for k in range(Q(tier, 200, 3000)):
             seed = rng.randrange(1 << 30)
             for V in gen.ROUTES:
                 yield gen.random_history(_r.Random(seed), f"rt{k}-{V}", Q(tier, 40, 120), V=V)
@@ -121,19 +122,19 @@ def s_C18(tier, rng):
 ALLMON = ["C01", "C02", "C04", "C06", "C07", "C08", "C10", "C12", "C13", "C14", "C16", "C18"]
 
 PROPS = {
-    "C01": {"streams": s_C01, "monitors": ["C01"]},
+    "C01": {"streams": s_C01, "monitors": ["C01"], "conc_monitors": ["C03", "C05", "C16"]},
     "C02": {"streams": s_C02, "monitors": ["C02"]},
-    "C04": {"streams": s_C04, "monitors": ["C04"]},
+    "C04": {"streams": s_C04, "monitors": ["C04"], "conc_monitors": ["C05", "PANIC"]},
     "C06": {"streams": s_C06, "monitors": ["C06"]},
-    "C07": {"streams": s_C07, "monitors": ["C07"]},
+    "C07": {"streams": s_C07, "monitors": ["C07"], "conc_monitors": ["C07"]},
     "C08": {"streams": s_C08, "monitors": ["C08"]},
     "C10": {"streams": s_C10, "monitors": ["C10"]},
     "C12": {"streams": s_C12, "monitors": ["C12"]},
     "C13": {"streams": s_C13, "monitors": ["C13"]},
     "C14": {"streams": s_C14, "monitors": ["C14", "C01", "C02", "C10"]},
     "C15": {"streams": s_C15, "monitors": ALLMON},
-    "C16": {"streams": s_C16, "monitors": ["C16"]},
-    "C17": {"streams": s_C17, "monitors": ["C17"]},
+    "C16": {"streams": s_C16, "monitors": ["C16"], "conc_monitors": ["C16"], "forwarding": True, "facts": True, "props_extra": ["C16F"]},
+    "C17": {"streams": s_C17, "monitors": ["C17"], "forwarding": True, "facts": True, "props_extra": ["C17F"]},
     "C18": {"streams": s_C18, "monitors": ["C18"]},
 }
 
